@@ -358,7 +358,12 @@ let case_prefilter r =
 (* ------------------------------------------------------------------ secret scan, fake detectors *)
 let hex8 r n = String.init n (fun _ -> "0123456789abcdef".[rint r 16])
 let rsecret_text r : string =
-  match rint r 17 with
+  match rint r 23 with
+  | 17 -> "mg-" ^ hex8 r 8                             (* token without its detector's keyword: not consulted *)
+  | 18 -> "needkw mg-" ^ hex8 r 8
+  | 19 -> "mg-" ^ hex8 r 8 ^ " NeedKW"                 (* keyword in another case *)
+  | 20 -> "hr-" ^ hex8 r 6 ^ pick r [| ""; " hk1"; " hk2"; " HK1 and more"; " hk" |]
+  | 21 -> "hk2: hr-" ^ hex8 r 6 ^ " mg-" ^ hex8 r 8
   | 0 -> "sk_live_" ^ hex8 r 8
   | 1 -> "key=sk_live_" ^ hex8 r 8 ^ ";"
   | 2 -> "SK_LIVE_" ^ hex8 r 8                         (* keyword in another case: detector consulted, finds nothing *)
@@ -413,7 +418,7 @@ let rsecret_dump r : dumpResult =
       db.d_tables }) d
 
 let rdetset r : int list =
-  let all = [ 0; 1; 2; 3; 4; 5; 6 ] in
+  let all = [ 0; 1; 2; 3; 4; 5; 6; 7; 8 ] in
   match rint r 4 with 0 -> all | 1 -> shuffle r all | 2 -> List.filter (fun _ -> rbool r) (shuffle r all) | _ -> List.rev all
 
 let case_scan r =
